@@ -103,7 +103,10 @@ def validate_instances(ctx, labelled, prop_sig_prefix=""):
         bl = lib.parse_bool_list(o) if ok else None
         chunk = cases[j:j + per]
         for i, c in enumerate(chunk):
-            if bl is None or len(bl) != len(chunk):
+            if not ok and o.startswith("TIMEOUT"):
+                c["status"] = "unsupported"
+                c["why"] = "validator time limit"
+            elif bl is None or len(bl) != len(chunk):
                 c["status"] = "coq-error"
                 c["why"] = o[-600:]
             else:
